@@ -55,9 +55,16 @@ def build_line(cfg, tr, stacked, assign_log, fit=False, series=None):
                 picks = [pos for (_d, _r, pos, _l, _n) in moves]
                 needy = [k for k in range(K) if e["in_before"]["labels"].count(k) < 2]
                 order = order + [k for k in needy if k not in order]
-        blocks.append("#".join([
+        fields = [
             show_list(thetas, lambda t: show_list(t.tolist(), lambda row: show_list(row, fr), ";"), "|"),
-            show_list(logdets, fr), show_list(spreads, fr), show_list(order), show_list(picks, lambda l: show_list(l), ";")]))
+            show_list(logdets, fr), show_list(spreads, fr), show_list(order), show_list(picks, lambda l: show_list(l), ";")]
+        if fit is True and len(tr.admm_calls) == K * len(rounds):
+            # raw (compressed) solver outputs of this round's K tasks + the covariance floor: the model re-inflates and
+            # filters them itself (OptPhase.reconstruct) and must arrive at exactly the recorded MRFs
+            raws = [c_["result"] for c_ in tr.admm_calls[r * K:(r + 1) * K]]
+            if all(x is not None and np.all(np.isfinite(x)) for x in raws):
+                fields += [show_list(raws, lambda v: show_list(np.asarray(v).ravel().tolist(), fr), ";"), fr(cfg.get("eps", 0))]
+        blocks.append("#".join(fields))
     nw = float(d * np.log(2 * math.pi))
     head = f"replayrun {T} {d} {K} {cfg['m']} {cfg['limit']} 1/2 {fr(nw)} "
     if fit:
@@ -122,7 +129,7 @@ def compare_report(ctx, cfg, res, model_out, impl_final_labels, fields=("cost", 
     returns 'equal' | 'near-tie' | 'break'.  Every model value is the exact rational value of the formula on the
     same float inputs, so only rounding separates the two sides."""
     parts = model_out.split(" ")
-    if parts[0] != "ok" or len(parts) != 14:
+    if parts[0] != "ok" or len(parts) != 15:
         ctx.violation("correspondence-break", f"whole-result model failed ({model_out[:60]}) on a run the implementation completed", cfg)
         return "break"
     labels = [int(x) for x in parts[2].split(",")]
@@ -135,6 +142,10 @@ def compare_report(ctx, cfg, res, model_out, impl_final_labels, fields=("cost", 
     K = cfg["K"]
     mag = sum(abs(x) for x in allv) + 1.0
     bad = []
+    if parts[14].startswith("rawdiff"):
+        bad.append("the MRFs reconstructed by the model from the raw solver outputs (re-inflate + floor) differ from the "
+                   f"implementation's in rounds {parts[14][8:]}")
+    ctx.count("whole_result_replay:raw-solver-output-" + ("checked" if parts[14] == "rawok" else "absent" if parts[14] == "-" else "diff"))
     if int(parts[1]) < 1:
         bad.append("rounds")
     if "cost" in fields and not _close(res.label_assignment_cost, cost, scale=mag):
